@@ -44,7 +44,7 @@ struct harness {
   virtual std::string default_prop() = 0;
 };
 
-constexpr int EXIT_VIOLATED = 42, EXIT_DEADLOCK = 43, EXIT_STEPLIMIT = 44;
+constexpr int EXIT_VIOLATED = 42, EXIT_DEADLOCK = 43, EXIT_STEPLIMIT = 44, EXIT_LIVELOCK = 45;
 
 inline std::string make_replay_text(const std::string& program, const override_list& ov, const std::string& comment) {
   std::string t;
@@ -85,6 +85,8 @@ inline std::string describe_code(int code) {
   if (code == EXIT_VIOLATED) return "oracle violation";
   if (code == EXIT_DEADLOCK) return "deadlock: every unfinished thread spins forever (a lock was left behind or threads wait on one another)";
   if (code == EXIT_STEPLIMIT) return "step limit exceeded (no bounded progress)";
+  if (code == EXIT_LIVELOCK)
+    return "livelock: an operation has not returned after the step budget plus twice that budget of fair round-robin continuation (it restarts forever; no thread is spin-blocked)";
   if (code >= 1000) return "crash: signal " + std::to_string(code - 1000) + (code - 1000 == 6 ? " (assertion / abort)" : "");
   return "crash: exit status " + std::to_string(code) + " (sanitizer report)";
 }
@@ -160,7 +162,7 @@ inline int sched_main(int argc, char** argv, harness& H) {
       return 2;
     }
     H.setup_process();
-    S.on_abort = [&](verdict_kind v) { std::cout << "FAIL " << describe_code(v == V_DEADLOCK ? EXIT_DEADLOCK : EXIT_STEPLIMIT) << "\n"; };
+    S.on_abort = [&](verdict_kind v) { std::cout << "FAIL " << describe_code(v == V_DEADLOCK ? EXIT_DEADLOCK : v == V_LIVELOCK ? EXIT_LIVELOCK : EXIT_STEPLIMIT) << "\n"; };
     std::string msg;
     const int rc = exec_once(program, ov, &msg);
     if (std::getenv("VERIF_TRACE")) {
@@ -309,6 +311,13 @@ inline int sched_main(int argc, char** argv, harness& H) {
       program = H.gen_program(seed, slog->program_index, nullptr);
       for (std::uint32_t i = 0; i < slog->n_overrides && i < shared_log::MAX_OV; ++i)
         ov.emplace_back(slog->ov_step[i], slog->ov_thread[i]);
+    }
+    if (code == EXIT_LIVELOCK && prop != "C14") {
+      // a never-returning operation is C14's subject; for the other properties nothing can be evaluated
+      inconclusive.push_back("program " + std::to_string(slog->program_index) + ": livelock verdict (decided by check C14)");
+      first = slog->program_index + 1;
+      if (++respawns > 50) break;
+      continue;
     }
     if (code == EXIT_STEPLIMIT) {
       // bounded progress exceeded without a deadlock verdict: inconclusive
